@@ -213,3 +213,6 @@ fn('cubicbez.rs', 'impl CubicBez {', 'approx_quad_control', 'CubicBez.approx_qua
 fn('cubicbez.rs', 'impl CubicBez {', 'parameters', 'CubicBez.parameters', f'(self : {C}) : {V} × {V} × {V} × {V}')
 fn('cubicbez.rs', 'impl CubicBez {', 'from_parameters', 'CubicBez.from_parameters', f'(a b c d : {V}) : {C}')
 fn('cubicbez.rs', 'impl CubicBez {', 'subdivide_3', 'CubicBez.subdivide_3', f'(self : {C}) : {C} × {C} × {C}')
+
+# ---------------------------------------------------------------- simplify.rs: the moment integrals of a cubic (C18)
+fn('simplify.rs', '', 'moment_integrals', 'momentIntegrals', f'(c : {C}) : K × K × K')
